@@ -202,11 +202,27 @@ def run(ctx):
             sends = [b for b, tt in f.calls() if tt.get("rpath") in senders]
             ctx.check(len(sends) == 1 and all(f.must_pass([tgt], sends) for _, tgt in succ), "R13.2", "%s|queues-shutdown" % name,
                       "the success path queues exactly one Shutdown command", f.where(bb))
-    ctx.check(n_cx == 1, "R13.2", "one-shutdown-entry", "the flag is set at exactly one site (compare_exchange in shutdown)", detail=str(n_cx))
+    # alternative idiom: `if flag.swap(true, ..) { return }`
+    for name, f in F.fns.items():
+        for bb, t in f.calls_to("std::sync::atomic::Atomic::<bool>::swap"):
+            o = f.op_origin(t["args"][0])
+            if not (o[0] == "field" and o[2] == FLAG):
+                continue
+            n_cx += 1
+            ctx.touch(f)
+            new_v = const_of(f.op_origin(t["args"][1]))
+            so = ordering(f.op_origin(t["args"][2]))
+            ctx.check(new_v == 1 and so in ("AcqRel", "SeqCst", "Release"), "R13.2", "%s|swap-true-release" % name, "shutdown sets the flag with swap(true, Release or stronger)", f.where(bb), "(%s,%s)" % (new_v, so))
+            sw = f.origin_call(bb, t)
+            succ = [(b, ft) for b, expr, tt, ft in bool_branches(f) if strip_site(expr) == strip_site(sw)]
+            eff_sites = [b for b, tt in f.calls() if is_effectful(site_effects(F, f, b)) and b != bb]
+            ctx.check(bool(succ) and all(b not in f.reach([0], avoid_edges=succ) for b in eff_sites) and len(eff_sites) >= 1, "R13.2", "%s|body-once" % name,
+                      "the shutdown body runs only when the previous flag value was false: once per cache", f.where(bb))
+    ctx.check(n_cx == 1, "R13.2", "one-shutdown-entry", "the flag is set at exactly one site (compare_exchange / swap in shutdown)", detail=str(n_cx))
     # nobody else writes the flag
     stores = []
     for name, f in F.fns.items():
-        for bb, t in f.calls_to("std::sync::atomic::Atomic::<bool>::store", "Atomic::<bool>::swap", "Atomic::<bool>::fetch_"):
+        for bb, t in f.calls_to("std::sync::atomic::Atomic::<bool>::store", "Atomic::<bool>::fetch_"):
             o = f.op_origin(t["args"][0])
             if o[0] == "field" and o[2] == FLAG and f.argc >= 1 and short in f.locals[1]["ty"]:
                 stores.append(f.where(bb))
